@@ -92,58 +92,116 @@ func checkC12(c *an.Ctx) {
 }
 
 func cancelIdempotent(c *an.Ctx, r *runnerRoles, rule string) {
+	p := c.P
 	f := r.cancel
-	var lockOp *an.BlockOp
-	for _, op := range an.BlockingOps(f) {
-		if op.Kind == "lock" {
-			o := op
-			lockOp = &o
+	// Cancel and the helpers of the package it calls: the lock, the test and the effects may sit in any of them
+	scope := p.Reach([]*ssa.Function{f}, func(e an.CallEdge) bool { return e.Kind == an.EdgeCall && an.Outer(e.Callee).Pkg == f.Pkg })
+	lockOf := func(g *ssa.Function) *an.BlockOp {
+		for _, op := range an.BlockingOps(g) {
+			if op.Kind == "lock" {
+				o := op
+				return &o
+			}
+		}
+		return nil
+	}
+	anyLock := false
+	for g := range scope {
+		if lockOf(g) != nil {
+			anyLock = true
 		}
 	}
-	if lockOp == nil {
+	if !anyLock {
 		c.Bad(rule, an.Short(f)+":exclusive-lock", f.Pos(), "Cancel does not take an exclusive lock")
 		return
 	}
-	n := 0
-	an.EachInstr(f, func(in ssa.Instruction) {
-		isEffect := false
-		what := ""
-		if call, ok := in.(*ssa.Call); ok {
-			if an.FieldProv(call.Call.Value) == "TaskRunner.cancelFunc" {
-				isEffect, what = true, "cancelFunc()"
-			}
-		}
-		if st, ok := in.(*ssa.Store); ok {
-			if fa, ok := st.Addr.(*ssa.FieldAddr); ok && strings.HasPrefix(an.TypeField(fa), "TaskRunner.") {
-				isEffect, what = true, "write("+an.TypeField(fa)+")"
-			}
-		}
-		if !isEffect {
-			return
-		}
-		n++
-		underLock := an.Dominates(lockOp.Instr, in)
-		// not after the unlock
-		an.EachInstr(f, func(x ssa.Instruction) {
-			if an.IsUnlockOf(x, *lockOp) {
-				if _, isDefer := x.(*ssa.Defer); !isDefer && an.Dominates(x, in) {
-					underLock = false
+	// underLock / guarded at an instruction: established in its own function, or at every call site of that function
+	var underLock, guarded func(in ssa.Instruction, depth int) bool
+	underLock = func(in ssa.Instruction, depth int) bool {
+		g := in.Parent()
+		if lk := lockOf(g); lk != nil && an.Dominates(lk.Instr, in) {
+			held := true
+			an.EachInstr(g, func(x ssa.Instruction) {
+				if an.IsUnlockOf(x, *lk) {
+					if _, isDefer := x.(*ssa.Defer); !isDefer && an.Dominates(x, in) {
+						held = false
+					}
 				}
+			})
+			if held {
+				return true
 			}
-		})
-		guarded := false
-		for _, g := range an.Guards(in.Block()) {
-			v := g.Cond
+		}
+		if g == f || depth == 0 {
+			return false
+		}
+		sites := p.CallSitesOf(g)
+		if len(sites) == 0 {
+			return false
+		}
+		for _, cs := range sites {
+			if !underLock(cs.(ssa.Instruction), depth-1) {
+				return false
+			}
+		}
+		return true
+	}
+	guarded = func(in ssa.Instruction, depth int) bool {
+		for _, gd := range an.Guards(in.Block()) {
+			v := gd.Cond
 			neg := false
 			if u, ok := v.(*ssa.UnOp); ok && u.Op == token.NOT {
 				v, neg = u.X, true
 			}
-			if an.FieldProv(v) == "TaskRunner.canceling" && (g.Outcome != neg) == false {
-				guarded = true
+			if an.FieldProv(v) == "TaskRunner.canceling" && (gd.Outcome != neg) == false {
+				return true
 			}
 		}
-		c.Check(underLock && guarded, rule, an.Short(f)+":"+what, in.Pos(), "executed once: under the exclusive lock and only when not yet canceling", fmt.Sprintf("%s is not guarded by !canceling under the exclusive lock (under lock=%v, guarded=%v): a second Cancel repeats it", what, underLock, guarded))
-	})
+		g := in.Parent()
+		if g == f || depth == 0 {
+			return false
+		}
+		sites := p.CallSitesOf(g)
+		if len(sites) == 0 {
+			return false
+		}
+		for _, cs := range sites {
+			if !guarded(cs.(ssa.Instruction), depth-1) {
+				return false
+			}
+		}
+		return true
+	}
+	n := 0
+	var fns []*ssa.Function
+	for g := range scope {
+		if g.Blocks != nil {
+			fns = append(fns, g)
+		}
+	}
+	sort.Slice(fns, func(i, j int) bool { return fns[i].String() < fns[j].String() })
+	for _, g := range fns {
+		an.EachInstr(g, func(in ssa.Instruction) {
+			isEffect := false
+			what := ""
+			if call, ok := in.(*ssa.Call); ok {
+				if an.FieldProv(call.Call.Value) == "TaskRunner.cancelFunc" {
+					isEffect, what = true, "cancelFunc()"
+				}
+			}
+			if st, ok := in.(*ssa.Store); ok {
+				if fa, ok := st.Addr.(*ssa.FieldAddr); ok && strings.HasPrefix(an.TypeField(fa), "TaskRunner.") {
+					isEffect, what = true, "write("+an.TypeField(fa)+")"
+				}
+			}
+			if !isEffect {
+				return
+			}
+			n++
+			ul, gd := underLock(in, 2), guarded(in, 2)
+			c.Check(ul && gd, rule, an.Short(f)+":"+what, in.Pos(), "executed once: under the exclusive lock and only when not yet canceling", fmt.Sprintf("%s is not guarded by !canceling under the exclusive lock (under lock=%v, guarded=%v): a second Cancel repeats it", what, ul, gd))
+		})
+	}
 	if n == 0 {
 		c.Bad(rule, an.Short(f)+":effects", f.Pos(), "Cancel never cancels the runner's context")
 	}
@@ -230,7 +288,7 @@ func runnerContext(c *an.Ctx, r *runnerRoles, rule string) {
 					sort.Strings(ks)
 					kind = strings.Join(ks, "+")
 				}
-				if an.Short(fn) == "(*pkg/runner.ExecutionContext).runServiceCommand" {
+				if serviceCommandSite(fn, job) {
 					return // context service commands: not one of the statement's injection points
 				}
 				provs := map[string]bool{}
@@ -325,4 +383,35 @@ func runnerContext(c *an.Ctx, r *runnerRoles, rule string) {
 		}
 	}
 	c.Check(good, rule, "TaskRunner.ctx/cancelFunc:pair", r.cancel.Pos(), "ctx and cancelFunc are one WithCancel pair, assigned only in the constructor", "TaskRunner.ctx and cancelFunc are not a single WithCancel pair assigned once in the constructor: Cancel may cancel a context the commands do not run under")
+}
+
+// serviceCommandSite recognises the execution of an execution context's own
+// service command (up/down/before/after of a context, not of a task): the
+// function works on an ExecutionContext, has no TaskRunner in reach, and the
+// job is one it builds itself rather than one the task compiler produced.
+func serviceCommandSite(fn *ssa.Function, job ssa.Value) bool {
+	f := an.Outer(fn)
+	hasCtx := false
+	for _, prm := range f.Params {
+		if an.TypeIs(prm.Type(), "pkg/runner", "TaskRunner") {
+			return false
+		}
+		if an.TypeIs(prm.Type(), "pkg/runner", "ExecutionContext") {
+			hasCtx = true
+		}
+	}
+	if !hasCtx {
+		return false
+	}
+	srcs := an.ResolveAll(job)
+	if len(srcs) == 0 {
+		return false
+	}
+	for _, src := range srcs {
+		al, ok := src.(*ssa.Alloc)
+		if !ok || al.Parent() != fn || !an.TypeIs(al.Type(), "pkg/executor", "Job") {
+			return false
+		}
+	}
+	return true
 }
